@@ -663,8 +663,9 @@ def finalStep (n : Nat) (fb : List Nat) (rels : List Relation) (kernel : List (L
   let filt ← filterRels n fb occs nfactors rels
   -- kernel computation happens here (input)
   if n % 2 = 0 ∨ bits n > 512 then throw .panic               -- ZmodN::new(*n)
-  let slots := occs.map (·.1)
-  let divs ← kernelLoop n slots filt isPrime kernel []
-  pure (slots, filt.length, sortDedup divs)
+  else do
+    let slots := occs.map (·.1)
+    let divs ← kernelLoop n slots filt isPrime kernel []
+    pure (slots, filt.length, sortDedup divs)
 
 end Ymq.Relations
